@@ -25,7 +25,8 @@ RULE = (
     "divisions, sorted=True on a sorted column whose equal values straddle partitions, sort=False), "
     "repartition(npartitions | divisions+force), loc slices (open/closed, bounds inside/outside the data), partitions[a:b], "
     "boolean filters on a column or on the index, blockwise ops (assign, arithmetic, projection, map_partitions, fillna, "
-    "cumsum, sample), shift(freq) on datetime indexes, head(compute=False), reset_index, index-aligned "
+    "cumsum, sample), shift(freq) on datetime indexes, head(n, npartitions=1|2|-1, compute=False), tail(n, compute=False), reset_index, "
+    "set_index(drop=False), index-aligned "
     "merge / concat(axis=1) / concat(axis=0, interleave_partitions) with a second frame. Oracle on the final collection: "
     "if divisions are known: npartitions == len(divisions)-1 == number of partitions produced, divisions are sorted "
     "and every partition, computed on its own, has all index values in [div[i], div[i+1]) "
@@ -63,20 +64,22 @@ def apply_step(ddf, step, st_):
         col = cols[step.get("col", 0) % len(cols)]
         vals = st_["colvals"][col]
         mode = step["mode"]
+        drop = step.get("drop", True)  # drop=False keeps the key as a column next to the index of the same name
         if mode == "quantile":
-            out = ddf.set_index(col, npartitions=step.get("npartitions"), shuffle_method=step.get("method", "tasks"))
+            out = ddf.set_index(col, drop=drop, npartitions=step.get("npartitions"), shuffle_method=step.get("method", "tasks"))
         elif mode == "divisions":
             d = C.division_vector(pd.Index(sorted(vals)), step.get("pos", []), step.get("lo", 0), step.get("hi", 0))
-            out = ddf.set_index(col, divisions=d, shuffle_method=step.get("method", "tasks"))
+            out = ddf.set_index(col, drop=drop, divisions=d, shuffle_method=step.get("method", "tasks"))
         elif mode == "sorted":
             if "s" not in ddf.columns or not st_["s_valid"]:
                 raise _Skip
             col = "s"
             vals = st_["colvals"]["s"]
-            out = ddf.set_index("s", sorted=True)
+            out = ddf.set_index("s", drop=drop, sorted=True)
         else:
-            out = ddf.set_index(col, sort=False)
+            out = ddf.set_index(col, drop=drop, sort=False)
         st_["index_vals"] = sorted(set(vals))
+        st_["kept_column"] = st_.get("kept_column") or not drop
         st_["unique"] = len(set(vals)) == len(vals)
         st_["monotonic"] = mode != "nosort"
         if mode != "nosort":
@@ -163,7 +166,11 @@ def apply_step(ddf, step, st_):
             raise _Skip
         return ddf.sort_values(cols[step.get("col", 0) % len(cols)])
     if op == "head":
-        return ddf.head(step["n"], npartitions=-1, compute=False)
+        # npartitions: -1 = all partitions, else the first k (clamped: asking for more than there are is a usage error)
+        k = step.get("npartitions", -1)
+        return ddf.head(step["n"], npartitions=-1 if k < 0 else min(k, ddf.npartitions), compute=False)
+    if op == "tail":
+        return ddf.tail(step["n"], compute=False)
     if op == "reset_index":
         st_["original_index"] = False
         st_["index_vals"] = []
@@ -283,7 +290,14 @@ def check(spec):
         # sig: the last step, and (if any) the first step at which optimize() changes the reported divisions - the
         # common root of most failures (the frame reports divisions that the executed expression does not have)
         sig = dict(op=applied[-1], prev=applied[-2] if len(applied) > 1 else "source", divisions_differ_after_optimize=diverged, diverged_on=diverged_on, concat0_before_divergence=concat0_before,
-                   concat1_then_more="concat1" in applied[:-1])
+                   concat1_then_more="concat1" in applied[:-1],
+                   # head(n, npartitions=k) / tail(n) somewhere above a shuffling set_index (quantile or user divisions)
+                   head_tail_above_set_index=any(a in ("head", "tail") and any(b in ("set_index-quantile", "set_index-divisions") for b in applied[:i])
+                                                 for i, a in enumerate(applied)),
+                   # a head/tail result (a Head/Tail expression) is the input of later steps
+                   head_tail_then_more=any(a in ("head", "tail") for a in applied[:-1]),
+                   # ... and a set_index(drop=False) was applied (the key stays a column of the frame)
+                   set_index_keep_column=bool(st_.get("kept_column")))
         known = C.divisions_known(cur.divisions)
         if not known:
             # C41 speaks about frames that report known divisions ((nan, nan) of an empty set_index counts as unknown)
@@ -326,19 +340,23 @@ def _divs_key(divs):
     return tuple("<NA>" if (d is None or C._isnan(d)) else d for d in divs)
 
 
-STEP_OPS = ["set_index", "repartition_n", "repartition_d", "loc", "partitions", "filter", "filter_index", "blockwise", "shift_freq", "sort_values", "head", "reset_index", "merge_index", "concat1", "concat0"]
+STEP_OPS = ["set_index", "repartition_n", "repartition_d", "loc", "partitions", "filter", "filter_index", "blockwise", "shift_freq", "sort_values", "head", "tail", "reset_index", "merge_index", "concat1", "concat0"]
 
 
 @st.composite
 def step_spec(draw, nrows, first):
-    ops = ["set_index", "set_index", "repartition_n", "repartition_d", "loc", "loc", "partitions", "filter", "filter_index", "blockwise", "head", "merge_index", "concat1", "concat0", "shift_freq"]
+    ops = ["set_index", "set_index", "repartition_n", "repartition_d", "loc", "loc", "partitions", "filter", "filter_index", "blockwise", "head", "tail", "merge_index", "concat1", "concat0", "shift_freq"]
     if not first:
         ops.append("reset_index")
+        # the first/last rows of what an earlier step built (set_index, repartition, loc, concat, ...)
+        ops += ["head", "tail"]
     op = draw(st.sampled_from(ops))
     pos = st.integers(0, max(nrows - 1, 0))
     if op == "set_index":
         mode = draw(st.sampled_from(["quantile", "quantile", "divisions", "sorted", "nosort"]))
         s = {"op": op, "mode": mode, "col": draw(st.integers(0, 3))}
+        if draw(st.integers(0, 3)) == 0:
+            s["drop"] = False
         if mode == "quantile":
             s["npartitions"] = draw(st.sampled_from([None, None, 1, 2, 3, 5]))
             s["method"] = draw(st.sampled_from(["tasks", "disk"]))
@@ -364,6 +382,8 @@ def step_spec(draw, nrows, first):
     if op == "sort_values":
         return {"op": op, "col": draw(st.integers(0, 3))}
     if op == "head":
+        return {"op": op, "n": draw(st.integers(1, 5)), "npartitions": draw(st.sampled_from([-1, -1, 1, 1, 2]))}
+    if op == "tail":
         return {"op": op, "n": draw(st.integers(1, 5))}
     if op == "reset_index":
         return {"op": op, "drop": draw(st.booleans())}
@@ -414,6 +434,33 @@ def classes(spec):
     yield f"nsteps-{len(spec['steps'])}"
 
 
+def head_tail_cases(tier):
+    """Exhaustive small grid: 2 sources x (a divisions-producing base step) x (nothing | an elementwise step) x
+    head(n, npartitions=k) / tail(n).  head/tail of a collection is a one-partition collection that reports the outer
+    divisions of the partitions it reads; the grid makes sure n exceeds / does not exceed what those partitions hold."""
+    cols = [{"kind": "int", "name": "a"}, {"kind": "int", "name": "b"}]
+    sources = [
+        {"columns": cols, "index": {"kind": "sorted_dups", "name": None}, "nrows": 12, "partition": {"how": "npartitions", "n": 3, "sort": True}, "seed": 0},
+        {"columns": cols, "index": {"kind": "range", "name": None}, "nrows": 9, "partition": {"how": "npartitions", "n": 2, "sort": True}, "seed": 1},
+    ]
+    bases = []
+    for drop in (True, False):
+        bases += [
+            {"op": "set_index", "mode": "quantile", "col": 0, "drop": drop, "npartitions": None, "method": "tasks"},
+            {"op": "set_index", "mode": "quantile", "col": 0, "drop": drop, "npartitions": 2, "method": "tasks"},
+            {"op": "set_index", "mode": "divisions", "col": 0, "drop": drop, "pos": [2, 6], "lo": 0, "hi": 0},
+            {"op": "set_index", "mode": "sorted", "col": 0, "drop": drop},
+        ]
+    bases += [{"op": "repartition_n", "n": 2}, {"op": "loc", "a": 1, "b": None, "da": 0, "db": 0}]
+    middles = [None, {"op": "blockwise", "kind": "assign"}]
+    lasts = [{"op": "head", "n": n, "npartitions": k} for n in (2, 6) for k in (1, 2, -1)] + [{"op": "tail", "n": n} for n in (2, 6)]
+    for src in sources:
+        for base in bases:
+            for mid in middles:
+                for last in lasts:
+                    yield dict(src, steps=[dict(base)] + ([dict(mid)] if mid else []) + [dict(last)])
+
+
 SUBCHECKS = [
     Sub(
         "programs",
@@ -423,5 +470,16 @@ SUBCHECKS = [
         nontrivial=nontrivial,
         classes=classes,
         doc="random construction programs; final collection's divisions vs per-partition index ranges",
+    ),
+    Sub(
+        "head_tail_grid",
+        check,
+        kind="enum",
+        cases=head_tail_cases,
+        nontrivial=nontrivial,
+        classes=classes,
+        exhaustive=True,
+        doc="head(n, npartitions=k, compute=False) / tail(n, compute=False) over set_index (quantile / user divisions / sorted, drop or not), "
+        "repartition and loc results, optionally through an elementwise step: full grid over two fixed frames",
     ),
 ]
